@@ -25,14 +25,14 @@ PROPS = {
     "C08": dict(fams=[walkfam("inbound"), walkfam("mixed", "wake", 160, 3000), genfam("reuse", "reuse", 1, 1), tlcfam("MC_Inbound")], design=["MC_Inbound"]),
     "C09": dict(fams=[walkfam("inbound", "wake", 320, 5000), genfam("q2seq", "q2seq", 1, 1), genfam("resume", "resume", 1, 1), genfam("reuse", "reuse", 1, 1), tlcfam("MC_Inbound")], design=["MC_Inbound"]),
     "C10": dict(fams=[walkfam("quota", "wake", 320, 5000), walkfam("ops", "wake", 160, 2000), walkfam("cancel", "wake", 160, 2000), genfam("quota-fill", "quotafill", 1, 1), genfam("reconn", "reconn", 1, 1), tlcfam("MC_Ops"), tlcfam("MC_Reconn")], design=["MC_Ops", "MC_Reconn"]),
-    "C11": dict(fams=[genfam("wrap", "wrap", 1, 1), genfam("threads", "threads", 1, 1), walkfam("ops", "wake", 80, 1000), tlcfam("MC_Ids")], design=["MC_Ids"]),
+    "C11": dict(fams=[genfam("wrap", "wrap", 1, 1), genfam("sidwrap", "sidwrap", 1, 1), genfam("threads", "threads", 1, 1), walkfam("ops", "wake", 80, 1000), tlcfam("MC_Ids")], design=["MC_Ids"]),
     "C12": dict(fams=[genfam("size", "size", 1, 1), genfam("reconn", "reconn", 1, 1), tlcfam("MC_Ops"), tlcfam("MC_Reconn")], design=["MC_Ops", "MC_Reconn"]),
     "C13": dict(fams=[walkfam("life", "wake", 400, 6000), genfam("first", "first", 1, 1), genfam("endings", "endings", 1, 1), genfam("reuse", "reuse", 1, 1), tlcfam("MC_Life")], design=["MC_Life"]),
     "C14": dict(fams=[walkfam("life", "wake", 400, 6000), walkfam("mixed", "wake", 160, 3000), genfam("endings", "endings", 1, 1), tlcfam("MC_Life")], design=["MC_Life", "MC_Live"]),
     "C15": dict(fams=[walkfam("cancel", "wake", 400, 6000), walkfam("mixed", "wake", 160, 3000), tlcfam("MC_Life"), tlcfam("MC_Ops"), tlcfam("MC_Inbound")], design=["MC_Life"]),
     "C16": dict(fams=[walkfam("wake", "wake", 160, 2000), walkfam("wake", "sweep", 160, 2000), walkfam("wake", "spur", 160, 2000),
                       walkfam("wakechunk", "wake", 240, 3000), walkfam("wakechunk", "sweep", 160, 2000),
-                      genfam("disc-compare", "disccmp", 1, 1), tlcfam("MC_Wake")], design=["MC_Wake", "MC_Live"]),
+                      walkfam("life", "sweep", 160, 2000), genfam("disc-compare", "disccmp", 1, 1), tlcfam("MC_Wake")], design=["MC_Wake", "MC_Live"]),
     "C17": dict(fams=[genfam("resume", "resume", 1, 1), tlcfam("MC_Resume")], design=["MC_Resume"]),
 }
 
